@@ -97,18 +97,34 @@ theorem equalTest_noPanic (fuel : Nat) (hs : s.WF) {a b : VCell} (ha : VCell.Val
 
 /-! ### `length`, `memq … assoc`: read-only recursions -/
 
+theorem lengthCount_sat (hs : s.WF) : ∀ (f : Nat) (fast slow : VCell) (k : Int), VCell.Valid s fast →
+    VCell.Valid s slow → Outcome.Sat (lengthCount f s fast slow (.num k)) (fun v => ∃ k, v = .num k)
+  | 0, _, _, _, _, _ => by simp [lengthCount]
+  | f+1, fast, slow, k, hf, hsl => by
+    unfold lengthCount
+    refine sat_bind (nullP_sat hs hf) (fun b _ => ?_)
+    split
+    · simp
+    · refine sat_bind (cdrV_sat hs hf) (fun d hd => ?_)
+      refine sat_bind (nullP_sat hs hd) (fun b1 _ => ?_)
+      split
+      · simp [add1, Store.get]
+      · refine sat_bind (cdrV_sat hs hd) (fun dd hdd => ?_)
+        refine sat_bind (cdrV_sat hs hsl) (fun sd hsd => ?_)
+        refine sat_bind (sat_of_noPanic (eqTest_noPanic hs hdd hsd)) (fun b2 _ => ?_)
+        split
+        · have : cdrV s circularListSym = .err .pair := rfl
+          rw [this]; simp
+        · have hadd : add2 s (.num k) = .ok (.num (k + 2)) := rfl
+          rw [hadd]
+          exact lengthCount_sat hs f dd sd (k + 2) hdd hsd
+
 theorem length_sat (hs : s.WF) : ∀ (f : Nat) (l : VCell), VCell.Valid s l →
     Outcome.Sat (length f s l) (fun v => ∃ k, v = .num k)
   | 0, _, _ => by simp [length]
   | f+1, l, hl => by
     unfold length
-    refine sat_bind (nullP_sat hs hl) (fun b _ => ?_)
-    split
-    · simp
-    · refine sat_bind (cdrV_sat hs hl) (fun d hd => ?_)
-      refine sat_bind (length_sat hs f d hd) (fun n hn => ?_)
-      obtain ⟨k, rfl⟩ := hn
-      simp [add1, Store.get]
+    exact lengthCount_sat hs f l l 0 hl hl
 
 theorem mem_sat (hs : s.WF) {test : Store → VCell → VCell → Outcome Bool}
     (ht : ∀ a b, VCell.Valid s a → VCell.Valid s b → Outcome.NoPanic (test s a b)) :
@@ -438,15 +454,29 @@ theorem forEachAll_sat {g : Callee} (hg : CalleeLaw g) : ∀ (f : Nat) (s : Stor
 theorem map_sat {g : Callee} (hg : CalleeLaw g) (fuel : Nat) (hs : s.WF) {lists : List VCell}
     (ha : ∀ v ∈ lists, VCell.Valid s v) : Outcome.Sat (map g fuel s lists) (Post s) := by
   unfold map
-  refine sat_bind (list_sat hs ha) (fun r hr => ?_)
-  obtain ⟨s1, xss⟩ := r
-  exact (mapAll_sat hg fuel s1 xss hr.1 hr.2.2).mono fun p hp => hp.trans hr.2.1
+  split
+  · simp
+  · rename_i xs rest
+    refine sat_bind (list_sat hs (fun v hv => ha v (List.mem_cons_of_mem _ hv))) (fun r hr => ?_)
+    obtain ⟨s1, l⟩ := r
+    obtain ⟨hs1, hle1, hl⟩ := hr
+    simp only at hs1 hle1 hl ⊢
+    refine sat_bind (cons_sat hs1 ((ha xs (List.mem_cons_self ..)).mono hle1) hl) (fun r2 hr2 => ?_)
+    obtain ⟨s2, xss⟩ := r2
+    exact (mapAll_sat hg fuel s2 xss hr2.1 hr2.2.2).mono fun p hp => hp.trans (hle1.trans hr2.2.1)
 
 theorem forEach_sat {g : Callee} (hg : CalleeLaw g) (fuel : Nat) (hs : s.WF) {lists : List VCell}
     (ha : ∀ v ∈ lists, VCell.Valid s v) : Outcome.Sat (forEach g fuel s lists) (Post s) := by
   unfold forEach
-  refine sat_bind (list_sat hs ha) (fun r hr => ?_)
-  obtain ⟨s1, xss⟩ := r
-  exact (forEachAll_sat hg fuel s1 xss hr.1 hr.2.2).mono fun p hp => hp.trans hr.2.1
+  split
+  · simp
+  · rename_i xs rest
+    refine sat_bind (list_sat hs (fun v hv => ha v (List.mem_cons_of_mem _ hv))) (fun r hr => ?_)
+    obtain ⟨s1, l⟩ := r
+    obtain ⟨hs1, hle1, hl⟩ := hr
+    simp only at hs1 hle1 hl ⊢
+    refine sat_bind (cons_sat hs1 ((ha xs (List.mem_cons_self ..)).mono hle1) hl) (fun r2 hr2 => ?_)
+    obtain ⟨s2, xss⟩ := r2
+    exact (forEachAll_sat hg fuel s2 xss hr2.1 hr2.2.2).mono fun p hp => hp.trans (hle1.trans hr2.2.1)
 
 end Marwood.Store
